@@ -2,6 +2,7 @@ import Cppcms.C01.ScgiProofs
 import Cppcms.C01.FcgiProofs
 import Cppcms.C01.HttpProofs3
 import Cppcms.C01.ScgiRoundtrip
+import Cppcms.C01.FcgiRoundtrip
 /-!
 # C01 — property theorems
 
@@ -89,6 +90,32 @@ theorem scgi_roundtrip (lim : Limits) (hb : 0 < lim.bufSize) (pairs : List (Byte
 /-- non-vacuity of `WFScgi`: a small POST request -/
 example : WFScgi [([67, 79, 78, 84, 69, 78, 84, 95, 76, 69, 78, 71, 84, 72], [51]), ([83, 67, 82, 73, 80, 84, 95, 78, 65, 77, 69], [47, 115])] :=
   ⟨by decide, by decide, by decide⟩
+
+/-- **FastCGI round trip**, any segmentation, any cut of the name-value block into PARAMS records and of the
+body into STDIN records, any padding, either length encoding: a well-formed request (`WFFcgi`) is delivered
+as exactly the peer's environment and body stream. -/
+theorem fcgi_roundtrip (lim : Limits) (hb : 0 < lim.bufSize) (conc : Bytes) (eps : List EncPair) (body : Bytes)
+    (fr : FcgiFraming) (hw : WFFcgi eps body fr) (segs : Segs) (h : segs.flatten = encFcgi fr) :
+    fcgiRun lim conc segs = [(reqOutcome lim (Head.ofEnv (Env.empty.addAll (pairsOf eps))) body).1] := by
+  rw [fcgiRun_eq_flat, h]
+  exact fcgiFlat_roundtrip lim hb conc eps body fr hw
+
+/-- **SCGI and FastCGI agree**: the same environment and body sent over either front-end, however
+framed and segmented, have the same fate (same application view, same error answer). -/
+theorem frontends_agree_scgi_fcgi (lim : Limits) (hb : 0 < lim.bufSize) (conc : Bytes) (eps : List EncPair) (body : Bytes)
+    (fr : FcgiFraming) (hwf : WFFcgi eps body fr) (hws : WFScgi (pairsOf eps))
+    (segsS segsF : Segs) (hS : segsS.flatten = encScgi (pairsOf eps) body) (hF : segsF.flatten = encFcgi fr) :
+    scgiConn lim segsS = fcgiRun lim conc segsF := by
+  rw [scgi_roundtrip lim hb _ body hws segsS hS, fcgi_roundtrip lim hb conc eps body fr hwf segsF hF]
+
+/-- non-vacuity of `WFFcgi`: `CONTENT_LENGTH=3`, the block in one PARAMS record (long-form value length),
+the body `abc` cut into two STDIN records with padding -/
+example : WFFcgi [{ name := [67, 79, 78, 84, 69, 78, 84, 95, 76, 69, 78, 71, 84, 72], value := [51], longValue := true }] [97, 98, 99]
+    { rid := 1, padBegin := 0, padParamsEnd := 3, padStdinEnd := 0,
+      params := [⟨encPairs [{ name := [67, 79, 78, 84, 69, 78, 84, 95, 76, 69, 78, 71, 84, 72], value := [51], longValue := true }], 5⟩],
+      stdin := [⟨[97], 1⟩, ⟨[98, 99], 0⟩] } :=
+  ⟨by decide, by decide, by decide, by decide, by decide, by decide, by unfold WFPieces; decide, by decide,
+   by unfold WFPieces; decide, by decide, by decide⟩
 
 /-- non-vacuity: different segmentations of the same stream exist -/
 example : ([[1, 2], [3]] : Segs).flatten = ([[1], [], [2, 3]] : Segs).flatten := by decide
